@@ -155,6 +155,19 @@ class SvPoly(_FloatOp):
         return FloatDataType(data.data * sum(coeffs) + sum(weights) + extra)
 
 
+class SvClip(_FloatOp):
+    """Optional bounds: both parameters default to None (= no bound)."""
+
+    def _process_logic(self, data, lower: float = None, upper: float = None):  # noqa: RUF013
+        _invoke("SvClip", {"lower": lower, "upper": upper}, data)
+        v = data.data
+        if lower is not None:
+            v = max(v, lower)
+        if upper is not None:
+            v = min(v, upper)
+        return FloatDataType(v)
+
+
 class SvSlow(_FloatOp):
     """Stalls for `delay` simulated seconds (slow job), then adds 0.5."""
 
@@ -339,6 +352,19 @@ class SvCtxWriterMixedKeys(_FloatOp):
     def _process_logic(self, data):
         _invoke("SvCtxWriterMixedKeys", {}, data)
         self._notify_context_update("mk", {1: 1.0, "b": 2.0})
+        return FloatDataType(data.data + 0.0)
+
+
+class SvCtxWriterFlag(_FloatOp):
+    """Writes the boolean True under the declared key ``flag`` (a value that compares equal to the float 1.0)."""
+
+    @classmethod
+    def context_keys(cls):
+        return ["flag"]
+
+    def _process_logic(self, data):
+        _invoke("SvCtxWriterFlag", {}, data)
+        self._notify_context_update("flag", True)
         return FloatDataType(data.data + 0.0)
 
 
@@ -553,7 +579,7 @@ class SvBadCtxProc(ContextProcessor):
 
 LEAF_NAMES = [
     "SvSource", "SvSourceDefault", "SvPayloadSource", "SvAdd", "SvAddDefault", "SvMul",
-    "SvMulDefault", "SvAffine", "SvPoly", "SvJitter", "SvSlow", "SvCaseOp", "SvScaleInPlace", "SvToStream", "SvStreamSum", "SvNeedsSubFloat", "SvRaiseOdd", "SvProbeNone", "SvWrongOutput", "SvWriteThenFail", "SvCtxWriterOpaque", "SvCtxWriterArray", "SvCtxWriterMixedKeys", "SvCtxWriterA", "SvCtxWriterB", "SvBadWriter", "SvToText",
+    "SvMulDefault", "SvAffine", "SvClip", "SvPoly", "SvJitter", "SvSlow", "SvCaseOp", "SvScaleInPlace", "SvToStream", "SvStreamSum", "SvNeedsSubFloat", "SvRaiseOdd", "SvProbeNone", "SvWrongOutput", "SvWriteThenFail", "SvCtxWriterOpaque", "SvCtxWriterArray", "SvCtxWriterMixedKeys", "SvCtxWriterFlag", "SvCtxWriterA", "SvCtxWriterB", "SvBadWriter", "SvToText",
     "SvTextLen", "SvBumpLast", "SvCollSum", "SvProbe", "SvProbeParam", "SvProbeDefault", "SvFileSink",
     "SvNullSink", "SvPayloadSink", "SvCtxCombine", "SvBadCtxProc",
 ]
